@@ -6,19 +6,12 @@ Lemmas for C14 on handlers that consume the stream through the request API (`Mod
 namespace Hertz.H1.Stream
 open Hertz Hertz.H1 Hertz.Gen.Str
 
-/-- while the request still references the stream, `streamBodyP` is `streamBody` -/
-theorem streamBodyP_attached (cfg : Cfg) (e : End) (hd : ReqHead) (s : Bytes) (p : Prog) (h : p.fin = .attached) :
-    streamBodyP cfg e hd s p = streamBody cfg e hd s p.c := by
-  simp [streamBodyP, h]
+/-- `streamBodyP` is `streamBody`, whatever the request references when the handler returns (d6f45a0) -/
+theorem streamBodyP_eq (cfg : Cfg) (e : End) (hd : ReqHead) (s : Bytes) (p : Prog) :
+    streamBodyP cfg e hd s p = streamBody cfg e hd s p.c := rfl
 
-/-- a chunked request whose stream the request no longer references -/
-theorem streamBodyP_chunked_detached (cfg : Cfg) (e : End) (hd : ReqHead) (s : Bytes) (p : Prog)
-    (h : p.fin ≠ .attached) (hcl : hd.cl = -1) :
-    streamBodyP cfg e hd s p =
-      .ok ({ head := hd, got := (consumeChunked cfg e hd.trailer p.c (p.c.stopAfter + s.length + 2) { s := s } []).1, streamed := true },
-           .resync (consumeChunked cfg e hd.trailer p.c (p.c.stopAfter + s.length + 2) { s := s } []).2.s) := by
-  have h2 : ¬ hd.cl = -2 := by omega
-  simp [streamBodyP, h, hcl]
+theorem streamBodyP_attached (cfg : Cfg) (e : End) (hd : ReqHead) (s : Bytes) (p : Prog) (_h : p.fin = .attached) :
+    streamBodyP cfg e hd s p = streamBody cfg e hd s p.c := rfl
 
 /-- fixed length, attached: the connection is closed or goes on right behind the `Content-Length` bytes -/
 theorem fixed_after (cfg : Cfg) (e : End) (hd : ReqHead) (s : Bytes) (c : Consume) (r : ReqOut) (a : After)
